@@ -7,6 +7,7 @@ mod c17;
 mod c28;
 mod c29;
 mod c30;
+mod c31;
 mod c33;
 
 use proptest::prelude::*;
@@ -41,6 +42,7 @@ fn main() {
         "C28" => c28::run(&mut check),
         "C29" => c29::run(&mut check),
         "C30" => c30::run(&mut check),
+        "C31" => c31::run(&mut check),
         "C33" => c33::run(&mut check),
         other => vcommon::harness_error(format!("genrun does not serve {other}")),
     }
